@@ -72,7 +72,7 @@ def gen_case0(rng, car):
             return Op(op, [A, Scal(rng.choice(["float", "npf64", "t0"]), c, coq_value=Fraction(c))]), "ttm-scalar-tiny", coqrun.QC
         kind = rng.choice(["int", "float", "npf64", "npi64", "t0", "t1", "npu8", "tu8", "npi32"])
         v = rng.choice([0, 1, 2, -3])
-        return Op(op, [A, Scal(kind, abs(v) if kind in ("npu8", "tu8") else v)]), "ttm-scalar", None
+        return Op(op, [A, Scal(kind, abs(v) if kind in ("npu8", "tu8") else v)]), ("ttm-scalar-zero-factor" if v == 0 and op in ("OMul", "ORMul") else "ttm-scalar"), None
     if r < 0.98:
         A2 = Lit4([c * 2 for c in A.cores[:1]] + A.cores[1:]) if not cplx else A
         if cplx:
